@@ -11,6 +11,7 @@ from ropt.plan import Plan
 
 from ..core import PropertyCheck
 from ..recorder import RunRecorder
+from ..transforms_util import make_transforms
 
 INF = float("inf")
 DIM = 3
@@ -35,6 +36,11 @@ def make_evaluator(spec):
         cons = None
         if ncon:
             cons = np.stack([variables[:, 0] + variables[:, 2]] + ([variables[:, 1] * variables[:, 2]] if ncon > 1 else []), axis=1)
+        for vec in spec.get("failvec", {}).get(state["n"], ()):       # every realization of one vector of a batch fails
+            out[np.arange(variables.shape[0]) // R == vec] = np.nan
+        for r in spec.get("failpert", {}).get(state["n"], ()):      # every perturbation of one realization fails
+            if context.perturbations is not None:
+                out[(context.realizations == r) & (context.perturbations >= 0)] = np.nan
         failcalls = spec.get("failcalls", {})
         if state["n"] in failcalls:
             for r in failcalls[state["n"]]:
@@ -97,6 +103,30 @@ def catalogue():
     add("sequential", {"R": 2}, [("optimizer", base(2, optimizer={"max_functions": 4})), ("optimizer", base(2, optimizer={"max_functions": 4}))])
     add("evaluator_step", {"R": 3}, [("evaluator", {k: v for k, v in base().items() if k != "optimizer"})])
     add("evaluator_step_failed", {"R": 3, "failcalls": {1: [0, 1, 2]}}, [("evaluator", {k: v for k, v in base().items() if k != "optimizer"})])
+    # a realization that fails only in a gradient evaluation: the stddev estimator is then left with a single realization
+    for call in (2, 4):
+        add(f"stddev_runs_out_in_gradient_{call}", {"R": 2, "nobj": 2, "failpert": {call: [1]}},
+            [("optimizer", {**base(2, objectives={"weights": [0.8, 0.2], "function_estimators": [0, 1]},
+                                   realizations={"realization_min_success": 1}),
+                            "function_estimators": [{"method": "mean"}, {"method": "stddev"}]})])
+        add(f"mean_survives_gradient_failure_{call}", {"R": 2, "failpert": {call: [1]}},
+            [("optimizer", base(2, realizations={"realization_min_success": 1}))])
+    # batches of vectors through the evaluator step, with transforms and failing vectors
+    evcfg = {k: v for k, v in base().items() if k != "optimizer"}
+    batch = [[0.5, 1.2, 1.9], [1.0, 1.0, 1.0], [0.9, 0.8, 0.7]]
+    scaled = {"var_scales": [2.0, 0.5, 1.0], "var_offsets": [0.1, 0.0, -0.2], "obj_scales": [10.0]}
+    add("evaluator_batch", {"R": 3}, [("evaluator", evcfg, {"variables": batch})], batch=3)
+    add("evaluator_batch_transforms", {"R": 3}, [("evaluator", evcfg, {"variables": batch, "transforms": scaled})], batch=3)
+    for n, vecs in enumerate(([0], [1], [2], [0, 2]), start=1):
+        add(f"evaluator_batch_failed_{n}", {"R": 3, "failvec": {1: vecs}}, [("evaluator", evcfg, {"variables": batch})], batch=3)
+        add(f"evaluator_batch_failed_transforms_{n}", {"R": 3, "failvec": {1: vecs}},
+            [("evaluator", evcfg, {"variables": batch, "transforms": scaled})], batch=3)
+    add("optimizer_transforms", {"R": 2}, [("optimizer", base(2), {"transforms": scaled})])
+    add("optimizer_transforms_constraint", {"R": 2, "ncon": 1},
+        [("optimizer", base(2, nonlinear_constraints={"lower_bounds": [-INF], "upper_bounds": [2.0]}),
+          {"transforms": {**scaled, "con_scales": [4.0]}})])
+    add("optimizer_transforms_failure", {"R": 3, "failcalls": {3: [0, 1]}},
+        [("optimizer", base(3, realizations={"realization_min_success": 2}), {"transforms": scaled})])
     return runs
 
 
@@ -104,11 +134,16 @@ def drive(sc):
     run = catalogue()[sc["index"]]
     rec = RunRecorder(make_evaluator(run["spec"]), abort_at_eval=run.get("abort_at_eval", 0))
     plan = Plan(rec.context)
-    steps = [plan.add_step(kind) for kind, _ in run["steps"]]
+    steps = [plan.add_step(item[0]) for item in run["steps"]]
     tracker = plan.add_handler("tracker", what="best", constraint_tolerance=1e-10, sources=set(steps))
     store = plan.add_handler("store", sources=set(steps))
-    for n, (step, (kind, cfg)) in enumerate(zip(steps, run["steps"]), start=1):
-        rec.run_step(plan, step, copy.deepcopy(cfg), tracked=True, batch=run.get("batch", 1), metadata={"tag": 10 * n, "list": [n]})
+    for n, (step, item) in enumerate(zip(steps, run["steps"]), start=1):
+        kw = dict(item[2]) if len(item) > 2 else {}
+        if "transforms" in kw:
+            kw["transforms"] = make_transforms(**kw["transforms"])
+        if "variables" in kw:
+            kw["variables"] = np.array(kw["variables"], dtype=np.float64)
+        rec.run_step(plan, step, copy.deepcopy(item[1]), tracked=True, batch=run.get("batch", 1), metadata={"tag": 10 * n, "list": [n]}, **kw)
     rec.store(plan.get(store, "results"))
     rec.best(plan.get(tracker, "results"))
     trace = rec.finish()
